@@ -28,4 +28,4 @@ for W in (2,3,4,5):
             if not ok:
                 bad[k]+=1; first.setdefault(k,(str(a),[str(p) for p in ps]))
 print(bad, tot, first)
-import sys; sys.exit(0)  # prints the counts; every "unsound"/"wrong" count is 0 on the repaired tree
+import sys; sys.exit(1 if any(bad.values()) else 0)
